@@ -138,7 +138,17 @@ def collect_lits(e, acc):
             collect_lits(x, acc)
 
 
+def token_table_of(repo):
+    """the token table [(name, 'lits' | 'num', literals)] in priority order (used by gen_atn.py for presentation order)"""
+    return _parse(repo)[3]
+
+
 def generate(repo):
+    gname, rules, implicit, table = _parse(repo)
+    return _emit(gname, rules, implicit, table)
+
+
+def _parse(repo):
     text = open(os.path.join(repo, "glyles/grammar/Glycan.g4")).read()
     toks = tokenize(text)
     p = P(toks)
@@ -179,6 +189,10 @@ def generate(repo):
             table.append((name, "num", []))
         else:
             raise TranslationError(f"lexer rule {name} has an unsupported shape")
+    return gname, rules, implicit, table
+
+
+def _emit(gname, rules, implicit, table):
     out = ["(* GENERATED by tools/translate/gen_grammar.py from glyles/grammar/Glycan.g4 -- do not edit *)",
            "From Coq Require Import String List.", "From GV Require Import Spec.Ebnf.", "Import ListNotations.",
            "Open Scope string_scope.", "",
